@@ -53,10 +53,10 @@ extras = st.fixed_dictionaries({}, optional={
 
 
 @st.composite
-def plans(draw, sers=SERS, algs=gk.JWS_ALGS, allow_b64=True, max_members=3, utf8_only=False):
+def plans(draw, sers=SERS, algs=gk.JWS_ALGS, allow_b64=True, max_members=3, utf8_only=False, b64_choices=None):
     ser = draw(st.sampled_from(sers))
     n = 1 if ser != "general" else draw(st.integers(1, max_members))
-    b64 = draw(st.sampled_from([None, None, True, False])) if (ser != "general" and allow_b64) else None
+    b64 = draw(st.sampled_from(b64_choices or [None, None, True, False])) if (ser != "general" and allow_b64) else None
     if b64 is False:
         payload = draw(payload_utf8 if utf8_only else st.one_of(payload_utf8, payload_utf8, payload_utf8, payload_any))
     else:
